@@ -18,6 +18,8 @@ import (
 	"fmt"
 	"runtime"
 	"strings"
+
+	"mosn.io/mosn/pkg/verifrt/vreport"
 )
 
 // Case is one input for one target; it is self-contained (replayable).
@@ -105,7 +107,7 @@ func LengthValues(tv uint64, w int) []uint64 {
 //	valid         the frame itself
 //	truncation    every proper prefix (length 0..L-1)
 //	length-field  every annotated length field set to every value of LengthValues
-//	byte-set      every byte position set to 0x00, 0xFF and ^b (when different from b)
+//	byte-set      every byte position set to 0x00, 0xFF and ^b (when different from b); thorough tier: to all 256 values
 //	dangling      every block grown by 1..3 bytes (each of 0x00,0x01,0xFF) with its length fields
 //	              adjusted, and shrunk by 1..3 bytes with its length fields adjusted
 //	trailing      the frame followed by the first 1..3 bytes of the next (never completed) frame
@@ -135,8 +137,15 @@ func Mutations(target string, f Frame, yield func(Case) bool) bool {
 	for i := 0; i < L; i++ {
 		o := f.Bytes[i]
 		vals := []byte{0x00, 0xFF, ^o}
+		if vreport.Thorough() {
+			// thorough tier: every byte position over ALL 256 values
+			vals = vals[:0]
+			for v := 0; v < 256; v++ {
+				vals = append(vals, byte(v))
+			}
+		}
 		for vi, v := range vals {
-			if v == o || (vi == 2 && (v == 0x00 || v == 0xFF)) {
+			if v == o || (len(vals) == 3 && vi == 2 && (v == 0x00 || v == 0xFF)) {
 				continue // unchanged, or ^b already produced as a constant
 			}
 			b := append([]byte(nil), f.Bytes...)
